@@ -38,7 +38,7 @@ theorem push_determined (ext : Ext) (un : Bytes → String) (hun : ∀ s, un (st
     (x : SVal) (b b' : B) (dt : DataType) (n : Bool) (md : Metadata)
     (hraw : noRaw x = true) (hwf : WFB b) (hsafe : Safe b) (hshape : Shape b dt n md) (h : push ext b x = .ok b') :
     ∃ lv, interpDT ext dt n md x = .ok lv ∧ erase b' = pushL un lv (erase b) := by
-  obtain ⟨_, _, _, lv, _, hi⟩ := C01.push_interp ext x b b' dt n md hraw hwf hsafe hshape h
+  obtain ⟨_, _, _, lv, _, hi⟩ := C01.push_interp ext x b b' dt n md (noRaw_ssa x hraw) (Or.inl hraw) hwf hsafe hshape h
   exact ⟨lv, hi, (push_phys ext un hun x b b' dt n md lv hraw hwf hsafe hshape h hi).symm⟩
 
 /-- **presentation independence of the physical state.**  Two values with the same documented meaning at the builder's
@@ -77,8 +77,8 @@ theorem foldl_presentation_physical (ext : Ext) (dt : DataType) (n : Bool) (md :
     simp only [List.map_cons, List.cons.injEq] at hs
     have hx := hr1 x (by simp)
     have hy := hr2 y (by simp)
-    obtain ⟨hw1', hs1', hsh1', _⟩ := C01.push_interp ext x b1 c1 dt n md hx hw1 hs1 hsh1 hc1
-    obtain ⟨hw2', hs2', hsh2', _⟩ := C01.push_interp ext y b2 c2 dt n md hy hw2 hs2 hsh2 hc2
+    obtain ⟨hw1', hs1', hsh1', _⟩ := C01.push_interp ext x b1 c1 dt n md (noRaw_ssa x hx) (Or.inl hx) hw1 hs1 hsh1 hc1
+    obtain ⟨hw2', hs2', hsh2', _⟩ := C01.push_interp ext y b2 c2 dt n md (noRaw_ssa y hy) (Or.inl hy) hw2 hs2 hsh2 hc2
     exact foldl_presentation_physical ext dt n md rows1 rows2 c1 c2 r1 r2 hw1' hw2' hs1' hs2' hsh1' hsh2'
       (push_presentation_physical ext x y b1 b2 c1 c2 dt n md hx hy hw1 hw2 hs1 hs2 hsh1 hsh2 he hs.1 hc1 hc2)
       (fun z hz => hr1 z (by simp [hz])) (fun z hz => hr2 z (by simp [hz])) hs.2 h1 h2
